@@ -472,6 +472,12 @@ class Engine:
     def e_Tuple(self, e, st):
         return VTuple([self.eval(x, st) for x in e.elts])
 
+    def e_Dict(self, e, st):
+        # dictionary literals are not modelled: the entries are evaluated (so that anything unsupported in them is noticed) and dropped
+        for v in e.values:
+            self.eval(v, st)
+        return VOpaque("dict-literal")
+
     def e_List(self, e, st):
         items = [self.eval(x, st) for x in e.elts]
         return self.seq_from_items(items, st)
@@ -1418,6 +1424,13 @@ class Engine:
                     new.borrowed = True        # a python list now holds a reference to the caller's array
                 self.assign_target(t.value, new, st)
                 return
+            if isinstance(base, VOpaque) and self.c.get("unknown_calls") == "opaque":
+                # a store into an unmodelled container (dict of generated arguments, ...): only counted as an effect
+                if not self.spec_mode:
+                    cur = st.ghost.get("effects", VNum(z3.IntVal(0)))
+                    st.ghost["effects"] = VNum(cur.z + 1)
+                    self.assumed.append(f"store into unmodelled container {ast.unparse(t.value)}")
+                return
             raise Unsupported(f"subscript assignment {ast.unparse(t)}")
         raise Unsupported(f"assignment target {ast.unparse(t)}")
 
@@ -1762,7 +1775,10 @@ class Engine:
                 self.cur_line = s.lineno
                 self.check_invs(s2, spec, idx, "preserve", cname, k + 1, entry)
             elif sig == ("break",):
-                raise Unsupported("break")
+                # leaves the loop from an arbitrary iteration: execution continues after the loop in THIS state
+                s2.trace.append(f"L{s.lineno}:loop{idx}.break")
+                self.loop_counter = max(self.loop_counter, saved_counter)
+                yield s2, None
             else:
                 yield s2, sig
         # after the loop
